@@ -12,6 +12,7 @@ import Pangaea.Drv.C12
 import Pangaea.Drv.C18
 import Pangaea.Drv.C13
 import Pangaea.Drv.C19
+import Pangaea.Drv.Core
 
 def dispatch (line : String) : String :=
   let toks := (line.trimAscii.toString.splitOn " ").filter (· ≠ "")
@@ -30,6 +31,7 @@ def dispatch (line : String) : String :=
     | "C18" :: rest => Pangaea.Drv.C18.handle rest
     | "C13" :: rest => Pangaea.Drv.C13.handle rest
     | "C19" :: rest => Pangaea.Drv.C19.handle rest
+    | "CORE" :: rest => Pangaea.Drv.Core.handle rest
     | _ => ("bad-op", "bad-op")
   r.1 ++ "\t" ++ r.2
 
